@@ -42,6 +42,7 @@ func runC01(c *Ctx) {
 		tmo    time.Duration
 		kinds  []string
 		rtmo   time.Duration // RetryClient.ResponseTimeout
+		slowOE time.Duration // OnError takes this long (the next connection exists before the failed task has finished)
 		eofw   bool          // write errors of a broken link wrap io.EOF
 		reent  bool          // callbacks call back into the client (see rcCfg.Reentrant)
 		cancel bool          // the context given to Connect is cancelled as soon as Connect has returned
@@ -60,6 +61,7 @@ func runC01(c *Ctx) {
 		{name: "N2.F1.silent-link.response-timeout", n: 2, bound: vrt.Budget{F: 1}, faults: env.FaultSet{Silent: true, SilentDrop: true, OnlyTypes: map[byte]bool{env.PUBLISH: true, env.PUBREL: true, env.SUBSCRIBE: true, env.UNSUBSCRIBE: true}}, keep: []bool{true}, phases: []byte{'S', 'N'}, kinds: []string{"p1", "p2", "sub", "unsub"}, rtmo: 2 * time.Second},
 		{name: "N2.F1.reentrant-callbacks", n: 2, bound: vrt.Budget{F: 1}, faults: base, keep: []bool{true}, phases: []byte{'B', 'S', 'N'}, kinds: []string{"p1", "p2", "sub"}, reent: true},
 		{name: "N2.F2.eof-write-errors", n: 2, bound: vrt.Budget{F: 2}, faults: env.FaultSet{WriteErr: true, LostClose: true}, keep: []bool{true}, phases: []byte{'B', 'S', 'N'}, kinds: []string{"p1", "p2", "sub", "unsub"}, eofw: true},
+		{name: "N2.F1.slow-onerror", n: 2, bound: vrt.Budget{F: 1}, faults: env.FaultSet{LostClose: true, AckLost: true}, keep: []bool{true}, phases: []byte{'S', 'N', 'O'}, kinds: []string{"p1", "p2", "sub"}, slowOE: 2500 * time.Millisecond},
 		{name: "N1.F2.noconnack", n: 1, bound: vrt.Budget{F: 2}, faults: env.FaultSet{NoConnAck: true, LostClose: true, OnlyTypes: map[byte]bool{env.CONNECT: true, env.PUBLISH: true, env.SUBSCRIBE: true}}, keep: []bool{true}, phases: []byte{'B', 'S'}, tmo: 3 * time.Second, kinds: all},
 	}
 	quickN := len(fams) // the thorough tier runs the quick families first, unchanged, then the deeper ones
@@ -77,6 +79,40 @@ func runC01(c *Ctx) {
 		}...)
 	}
 	var sample *rcRun
+	// several requests accepted during one outage (parked behind the failed one), a second loss while
+	// they are being carried out
+	{
+		c.Bound("parked.F2", "workloads [x settled, y and z submitted during the outage] for x,y,z over {QoS 1, QoS 2, subscribe}; faults request-lost / acknowledgement-lost (closing) F<=2; session kept")
+		ks := []string{"p1", "p2", "sub"}
+		mk := func(k string, i int, ph byte) rcReq {
+			q := rcReq{Kind: k, Phase: ph}
+			if k == "sub" {
+				q.Subs = []string{fmt.Sprintf("f%d:1", i)}
+			} else {
+				q.Tag = fmt.Sprintf("m%d", i)
+			}
+			return q
+		}
+		for _, x := range ks {
+			for _, y := range ks {
+				for _, z := range ks {
+					reqs := []rcReq{mk(x, 1, 'S'), mk(y, 2, 'O'), mk(z, 3, 'O')}
+					var run *rcRun
+					sc := &vrt.Scenario{
+						Name:  "C01/parked.F2/" + rcName(reqs),
+						Bound: vrt.Budget{F: 2},
+						Cfg:   vrt.Config{Horizon: int64(300 * time.Second)},
+						Body: func() {
+							rcExecuteInto(&rcCfg{Reqs: reqs, Faults: env.FaultSet{LostClose: true, AckLost: true}, KeepSession: true}, &run)
+							c01Oracle(run)
+						},
+						Observe: func() uint64 { return run.net.TraceHash() },
+					}
+					c.Explore(sc)
+				}
+			}
+		}
+	}
 	for fi, f := range fams {
 		deep := fi >= quickN
 		c.Bound(f.name, fmt.Sprintf("all workloads of length<=%d over %v x phases %q; faults %+v per client->broker packet; budget %s; session kept %v", f.n, f.kinds, string(f.phases), f.faults, f.bound, f.keep))
@@ -92,7 +128,7 @@ func runC01(c *Ctx) {
 					Bound: f.bound,
 					Cfg:   vrt.Config{Horizon: int64(300 * time.Second)},
 					Body: func() {
-						rcExecuteInto(&rcCfg{Reqs: reqs, Faults: f.faults, KeepSession: keep, ConnTimeout: f.tmo, Manual: f.manual, CancelConnectCtx: f.cancel, RespTimeout: f.rtmo, Reentrant: f.reent, EOFWriteErrors: f.eofw}, &run)
+						rcExecuteInto(&rcCfg{Reqs: reqs, Faults: f.faults, KeepSession: keep, ConnTimeout: f.tmo, Manual: f.manual, CancelConnectCtx: f.cancel, RespTimeout: f.rtmo, Reentrant: f.reent, EOFWriteErrors: f.eofw, SlowOnError: f.slowOE}, &run)
 						c01Oracle(run)
 					},
 					Observe: func() uint64 { return run.net.TraceHash() },
